@@ -887,6 +887,10 @@ impl Context {
         self.prelude_ident(name, "Send", "std::marker::Send")
     }
 
+    pub fn sync_ident(&self, name: &TypeName) -> TokenStream {
+        self.prelude_ident(name, "Sync", "std::marker::Sync")
+    }
+
     fn prelude_ident(&self, name: &TypeName, short: &str, long: &str) -> TokenStream {
         let s = if self.type_name(name.name()) == short {
             long
